@@ -580,7 +580,7 @@ def check_driver(prog, rep, kern, line, cs):
                     env = {a: Fraction(nv) for a in cn}
                     env.update({a: Fraction(pv) for a in cp})
                     return any(all(eval_cond_full(g, {**env, **{mm: Fraction(mv) for mm in modes}}) for g in st.guards) for mv in (0, 1, 2, 3))
-                if cn and cp and act(3, 2) and not act(-1, 2) and not act(3, -1) and act(3, 0):
+                if cn and cp and act(3, 2) and not act(-1, 2) and not act(3, -1) and act(3, 0) and act(0, 2) and act(0, 0):
                     ngu += 1
             except CannotEvaluate:
                 pass
@@ -610,7 +610,7 @@ def check_driver(prog, rep, kern, line, cs):
     rep.add('X4', kern, entry, 'direction = bearing(cell -> remembered pair) (%d sites)' % ndi, kern.node.lineno, ndi == 4,
             'direction must be computed from the cell\'s coordinates to the coordinates of the remembered pair, after each of the four sweeps')
     rep.add('X4', kern, entry, 'outputs written only for cells whose sweep found a target (%d/%d)' % (ngu, total),
-            kern.node.lineno, ngu == total and total == 8, 'every allocation/direction store must be under `nearest != -1 and proximity >= 0`')
+            kern.node.lineno, ngu == total and total == 8, 'every allocation/direction store must be made exactly when the sweep named a target: `nearest != -1 and proximity >= 0` (column 0 is a valid nearest column)')
     # NaN for unreached cells after the last sweep, before the final save
     nanfix = False
     for j in range(last2 + 1, len(ev)):
